@@ -1,4 +1,5 @@
 """Shared driver for the per-property checks: discharge, verdict policy, known findings, replay files, evidence."""
+import ast
 import json
 import os
 import re
@@ -110,7 +111,7 @@ class Run:
                     if k >= len(quals):
                         break
                     q = quals[k]
-                    marks = {n: len(getattr(eng, n, []) or []) for n in ("stale_loops", "unannotated_loops", "adapted_signatures")}
+                    marks = {n: len(getattr(eng, n, []) or []) for n in ("stale_loops", "unannotated_loops", "adapted_signatures", "calls_seen")}
                     inl0 = set(getattr(eng, "inlined", set()) or set())
                     try:
                         r = eng.verify(q, extra_post=extra_post)
@@ -269,8 +270,38 @@ class Run:
                                f"hash {h} of the function and the helpers it calls ({len(clo)} bodies), pinned {pins.get(q0, 'none')}: the trusted contract was accepted for other text", where=q0,
                                meta={"clause": f"trusted: {str(c.trusted)[:160]}", "weak": True})
 
+    def audit_callee_contracts(self):
+        """Modular checking uses a callee's contract, not its body: every contract applied at a call site must itself be an obligation
+        somewhere.  For each callee contract this run applied on a function of /repo: verified in this run, or verified by another
+        property's check (verified_by.json, regenerated from the evidence files by tools/gen_manifest.py; recorded as a dependency), or marked
+        trusted (pinned, pin_trusted).  A contract that is none of these is reported as a weak obligation: nothing checks that clause."""
+        p = os.path.join(ROOT, "verified_by.json")
+        elsewhere = json.load(open(p)) if os.path.exists(p) else {}
+        here = {r.qual.split("#")[0].split("@")[0] for r in self.fn_results}
+        deps, orphans = {}, []
+        for caller, callee in sorted(set(tuple(x) for x in getattr(self.eng, "calls_seen", []))):
+            q0 = callee.split("#")[0].split("@")[0]
+            c = self.eng.contracts.get(callee) or self.eng.contracts.get(q0)
+            if q0 not in self.repo.qual or q0.startswith("lemmas") or q0 in here or c is None or getattr(c, "trusted", None):
+                continue
+            body = [x for x in self.repo.qual[q0].body if not (isinstance(x, ast.Expr) and isinstance(x.value, ast.Constant))]
+            if all(isinstance(x, ast.Pass) or (isinstance(x, ast.Raise) and "NotImplementedError" in ast.unparse(x)) for x in body):
+                continue        # an abstract method: its contract is the dispatch interface, verified on every override (contract_key), not on this body
+            others = [x for x in elsewhere.get(q0, []) if x != self.pid]
+            if others:
+                deps.setdefault(q0, others)
+            elif q0 not in orphans:
+                orphans.append(q0)
+        self.notes["callee_contracts_verified_by_other_checks"] = deps
+        self.notes["callee_contracts_verified_nowhere"] = orphans
+        for q0 in (orphans if os.environ.get("VERIF_AUDIT_CALLEES", "1") == "1" else []):
+            self.syntactic(f"{q0}:callee-contract-is-verified-somewhere", "trust", False,
+                           "the contract is applied at call sites of this check but no check verifies the function against it, and it is not marked trusted", where=q0,
+                           meta={"clause": "every contract used at a call site is verified (here or under another property) or listed as trusted", "weak": True})
+
     def finish(self):
         self.pin_trusted()
+        self.audit_callee_contracts()
         if os.environ.get("VERIF_PIN_TRUSTED"):
             p = os.path.join(ROOT, "trusted_bodies.json")
             pins = json.load(open(p)) if os.path.exists(p) else {}
